@@ -669,6 +669,39 @@ pub fn run() {
             note(&mut bad, k, l, w);
         }
     }
+    // ---- command sequences: two commands in a row, recall from the history, edit a recalled line ----
+    {
+        let cmds = ["FC = 5", "set FD = 0x10", "FE = 0b11", "set IRG = 200", "set TEMP = 1.5", "set I1 = 2.0", "set J1", "unset J1", "set UIO2", "unset UIO2", "show memory", "show register", "next 3", "next", "load ok.asm", "bogus", "FF = 256"];
+        let mut seqs: Vec<Vec<K>> = vec![];
+        for a in cmds {
+            for b in cmds {
+                let mut k = typed(a);
+                k.extend(typed(b));
+                seqs.push(k);
+            }
+            // recall and resubmit; recall, edit, resubmit; recall, leave, type anew
+            let mut k = typed(a);
+            k.extend([K::E(Key::Up), K::E(Key::Enter), K::E(Key::Up), K::E(Key::Up), K::E(Key::Enter)]);
+            seqs.push(k);
+            let mut k = typed(a);
+            k.extend([K::E(Key::Up), K::E(Key::Backspace), K::E(Key::Char('7')), K::E(Key::Enter), K::E(Key::Up), K::E(Key::Down), K::E(Key::Enter)]);
+            seqs.push(k);
+            let mut k = typed("bogus");
+            k.push(K::E(Key::Char('x'))); // dismisses the notification only
+            k.extend(typed(a));
+            k.extend([K::E(Key::Up), K::E(Key::Up), K::E(Key::Down), K::E(Key::Home), K::E(Key::Delete), K::E(Key::End), K::E(Key::Enter)]);
+            seqs.push(k);
+        }
+        let res = mc::par_map(&seqs, |keys| match mc::catch(|| replay(keys).map(|mut s| s.render(76, 28))) {
+            Ok(Ok(_)) => None,
+            Ok(Err((k, w))) => Some((k, keys_line(keys, 76, 28), w)),
+            Err(p) => Some((panic_key(&p), keys_line(keys, 76, 28), format!("panic at {}: {}", p.site(), p.msg))),
+        });
+        cmd_runs += seqs.len() as u64;
+        for x in res.into_iter().flatten() {
+            note(&mut bad, x.0, x.1, x.2);
+        }
+    }
     // ---- control keys after each of 20 machine states ----
     let mut ctl_runs = 0u64;
     {
